@@ -45,6 +45,14 @@ fn emoticon_histories(e: &str, phonetic: bool, numpad_on: bool) -> Vec<Vec<Ev>> 
     for pre in [vec![], vec![Ev::ch('k'), Ev::Finish], vec![Ev::ch('k'), Ev::Commit(0)], vec![Ev::ch('k'), Ev::CtrlBs], vec![Ev::ch('k'), Ev::Bs]] {
         v.push(pre.into_iter().chain(typed.iter().cloned()).collect());
     }
+    // ... and after an EMOTICON whose second / third candidate (the literal typed text, the transliteration) was committed:
+    // a composition without a word part ended by a commit that has something to learn
+    for i in [1usize, 2] {
+        if !phonetic && i == 2 {
+            continue; // (fixed method: the list of an emoticon is the typed text and its emoji)
+        }
+        v.push([Ev::ch(':'), Ev::ch(')'), Ev::Commit(i)].into_iter().chain(typed.iter().cloned()).collect());
+    }
     // the same characters from the number pad's keys (phonetic: always; fixed: while the number-pad option is on)
     if phonetic || numpad_on {
         let kp_typed: Vec<Ev> = e.chars().map(|c| crate::keys::KEYS.iter().find(|k| k.numpad && k.ch == Some(c)).map(|k| Ev::key(k.code)).unwrap_or_else(|| Ev::ch(c))).collect();
@@ -123,6 +131,9 @@ pub fn run(report: &Report, thorough: bool) -> Evidence {
                 // bare, and after an earlier word ended in each of the four ways (same context)
                 for evs in emoticon_histories(e, true, false) {
                 for ctx in ctxs.iter_mut() {
+                    if ctx.opts.ansi && evs.iter().any(|x| matches!(x, Ev::Commit(i) if *i > 0)) {
+                        continue; // (no emoji under ANSI: the index would be outside the list)
+                    }
                     let Some(r) = type_all(ctx, &evs, report) else { continue };
                     checked.fetch_add(1, Ordering::Relaxed);
                     nontrivial.fetch_add(1, Ordering::Relaxed);
@@ -282,6 +293,9 @@ pub fn run(report: &Report, thorough: bool) -> Evidence {
                 // (every main-zone key of Probhat has a value, so the raw key text is the emoticon)
                 for (ctx, _) in ctxs.iter_mut() {
                 for evs in emoticon_histories(e, false, ctx.opts.numpad) {
+                    if ctx.opts.ansi && evs.iter().any(|x| matches!(x, Ev::Commit(i) if *i > 0)) {
+                        continue;
+                    }
                     let Some(r) = type_all(ctx, &evs, report) else { continue };
                     checked.fetch_add(1, Ordering::Relaxed);
                     nontrivial.fetch_add(1, Ordering::Relaxed);
